@@ -9,7 +9,7 @@ set -u
 ID=$1; PKG=$2
 ROOT=$(cd "$(dirname "$0")" && pwd)
 case "$ID" in
-  C04) ARGS="--scale 0.1 --threads 8" ;;
+  C04) ARGS="--scale 0.04 --threads 1" ;;
   C05) ARGS="--scale 1 --threads 4" ;;
   C09) ARGS="--scale 0.2 --threads 4" ;;
   *) exit 0 ;;
@@ -21,7 +21,7 @@ OUT="$ROOT/.run/memcheck-$ID.out"
 EV="$ROOT/.run/$ID-memcheck-evidence.json"
 rm -f "$EV" "$LOG"
 START=$(date +%s)
-timeout 2400 valgrind --error-exitcode=9 --log-file="$LOG" --num-callers=30 "$BIN" --prop "$ID" --tier quick $ARGS \
+VERIF_WATCHDOG_SECS=2300 timeout 2400 valgrind --error-exitcode=9 --log-file="$LOG" --num-callers=30 "$BIN" --prop "$ID" --tier quick $ARGS \
   --seed "${VERIF_SEED:-1}" --evidence "$EV" --replays "$ROOT/replays" >"$OUT" 2>&1
 RC=$?
 SECS=$(( $(date +%s) - START ))
